@@ -285,3 +285,42 @@ Example C02_example_resolver_chain :
              (XPrim (PTuple 2) [XVar 4; XVar 3]))))
   = RInferred 3 [tfun [TVar 0] (ttuple [TVar 1; TVar 2]); tslice (TVar 0)] (ttuple [TVar 2; TVar 1]) false.
 Proof. vm_compute. reflexivity. Qed.
+
+(* ================================================================== the bounded loop of updateResolver (fc/infer.fo since cc92c84) *)
+From Coq Require Import NArith.
+From FoVerif Require Import Core.ResolverBound Core.ResolverBoundProofs.
+
+(** termination: with fuel >= 1002 the bounded loop never runs out of fuel - for every resolver, every
+    relation list, every enumeration order and name comparison (the measure is the round counter) *)
+Theorem C02_bounded_resolver_terminates : forall later enum fuel st rels,
+  (1002 <= N.of_nat fuel)%N -> update_resolver_b later enum fuel st rels <> BFuel.
+Proof. exact update_resolver_b_terminates. Qed.
+Print Assumptions C02_bounded_resolver_terminates.
+
+(** agreement: whenever the unbounded loop ends within 1000 further rounds and 100000 produced
+    relations, the bounded loop returns the same resolver (and the same ignored-clash flag) *)
+Theorem C02_bounded_resolver_agrees : forall later enum fuel st rels st' g r w,
+  update_resolver later enum fuel st rels = LDone st' g ->
+  run_stats later enum fuel st rels = Some (r, w) ->
+  (r <= round_bound)%N -> (w <= work_bound)%N ->
+  update_resolver_b later enum fuel st rels = BDone st' g.
+Proof. exact update_resolver_b_agrees. Qed.
+Print Assumptions C02_bounded_resolver_agrees.
+
+(** the statistics exist for every run of the unbounded loop that ends *)
+Theorem C02_run_stats_defined : forall later enum fuel st rels st' g,
+  update_resolver later enum fuel st rels = LDone st' g ->
+  exists r w, run_stats later enum fuel st rels = Some (r, w).
+Proof. exact run_stats_defined. Qed.
+Print Assumptions C02_run_stats_defined.
+
+(** x = (x, x), x = ((x, x), (x, x)): the relation list doubles in every pass (3, 6, 12, ... 384),
+    so a bound on the rounds alone is not enough; the bounded loop reports it, and the slice cycle too *)
+Example C02_doubling_relations_grow :
+  map (fun k => option_map (@length rel) (rels_after Nat.ltb enum_id k [] rels_dbl)) [1; 2; 3; 4; 5; 6; 7; 8]
+  = [Some 3; Some 6; Some 12; Some 24; Some 48; Some 96; Some 192; Some 384].
+Proof. exact doubling_relations_double. Qed.
+Example C02_bounded_loop_reports_doubling : bsolve_rels Nat.ltb enum_id bound_fuel rels_dbl = BSNoConv.
+Proof. exact bounded_loop_reports_doubling. Qed.
+Example C02_bounded_loop_reports_slices : bsolve_rels Nat.ltb enum_id bound_fuel rels_slc = BSNoConv.
+Proof. exact bounded_loop_reports_slices. Qed.
